@@ -107,6 +107,13 @@ def validated_return(P, R, r, sepch, idv, serv):
         found_ok = is_var(v) and has(lambda g: is_var(g[0], v['name']) and g[1] == '!=' and const_of(g[2]) == 0)
         ser_ok = has(lambda g: g[1] == '==' and ((is_var(g[0], serv) and is_field(g[2], 'serial', core.REQ_REC)) or (is_var(g[2], serv) and is_field(g[0], 'serial', core.REQ_REC))))
         canon_here = _canonical(r, s, v, gs)
+        # the comparison with the writer's own text makes the separator / end / serial tests redundant - as tests that
+        # ACCEPT.  A test that is still there also REJECTS: it must not refuse the very text the writer produces, so a
+        # serial test that is kept compares the parsed serial with the found request's own serial, nothing else
+        ser_tests = [g for g in gs if (is_var(g[0], serv) or is_var(g[2], serv)) and g[1] in ('==', '!=')]
+        for g in ser_tests:
+            other = g[2] if is_var(g[0], serv) else g[0]
+            R.ob('C04.GRD.1', is_field(other, 'serial', core.REQ_REC), s, 'the serial parsed from the tag is compared with the serial of the request found and nothing else (%s)' % sx(other), key='serial-test-own')
         for nm, ok in (('the separator test', sep_ok), ('the end-of-string test', end_ok), ('a successful table lookup', found_ok), ('serial == req->serial', ser_ok)):
             if canon_here and nm != 'a successful table lookup':
                 # the exact comparison with the writer's output for the request found implies it
@@ -157,7 +164,10 @@ def validated_return(P, R, r, sepch, idv, serv):
         tv, tf = numeric.type_range(vtype(var) or ''), numeric.type_range(ft or '')
         if not tf:
             continue
-        R.ob('C04.GRD.1', (bool(tv) and tv[0] <= tf[0] and tv[1] >= tf[1]) or all(_canonical(r, s_, v_, r.guards(s_.bid)) for s_, v_ in rets), r,
+        # a narrower local is harmless only where it is not compared at all (the comparison with the writer's text decides);
+        # where the comparison is kept, a truncated value refuses the writer's own tags once the field outgrows the local
+        compared = any((is_var(g[0], var) or is_var(g[2], var)) and g[1] in ('==', '!=') and (is_field(g[0], field, core.REQ_REC) or is_field(g[2], field, core.REQ_REC)) for s_, v_ in rets for g in r.guards(s_.bid))
+        R.ob('C04.GRD.1', (bool(tv) and tv[0] <= tf[0] and tv[1] >= tf[1]) or (not compared and all(_canonical(r, s_, v_, r.guards(s_.bid)) for s_, v_ in rets)), r,
              'the parsed %s is held in a type (%s) that can represent every value of the request field it is compared with (%s)' % (what, vtype(var), ft), key='width:%s' % what)
     R.floor('C04.GRD.1', 5)
     return bool(rets) and all(_canonical(r, s, v, r.guards(s.bid)) for s, v in rets)
